@@ -62,6 +62,12 @@ CLAIMED.update({
                   "delegate to them or satisfy a law itself. This is the algebra NOT push-down, canonicalisation and guarantee "
                   "rewriting rely on; the individual pattern rewrites, constant folding and casts are not decided."),
     },
+    "C49": {
+        "technique": "static analysis: finite-domain path exploration over MIR (A1) of every DDL handler (flags x existence-probe outcome) against the SQL decision table",
+        "level": ("Static, exhaustive over the decision domain: for every CREATE/DROP handler of SessionContext (found by the DdlStatement payload type) "
+                  "and every combination of IF NOT EXISTS / OR REPLACE / IF EXISTS with object exists / missing, the handler's paths register, replace, "
+                  "leave alone or refuse exactly as the SQL model says (36 cells). Name resolution, view contents and the information schema are not decided."),
+    },
     "C47": {
         "technique": "static analysis: exhaustive table extraction from MIR; symmetry + integer-range containment; one-sided match-arm detection",
         "level": ("Static, exhaustive: numerical_coercion over all 121 ordered pairs of integer/float types is symmetric and, for "
@@ -367,7 +373,6 @@ NA = {
     'C45': 'behavioural equality through function-pointer tables; the only structural angle would be a name-matching heuristic (brittle proxy)',
     'C46': 'CSV text round trip and cell comparison over all result sets; string/value-level',
     'C48': 'result equality between two plan builders over all operation chains',
-    'C49': 'histories of DDL against mutable catalog state; name-resolution outcomes are value-level',
     'C51': 'character-level scanning/quoting over all input strings',
     'C52': 'character-level quoting/parsing over all identifiers; a string-function inverse property',
 }
